@@ -811,6 +811,23 @@ func c18Resource(env *core.Env, tn string, seed uint64, rich bool, totality bool
 	if len(targets) > max {
 		targets = targets[:max]
 	}
+	// every special element class present in the resource is targeted at least once, whatever the draw was
+	have := map[string]bool{}
+	for _, ti := range targets {
+		have[elemClass(nodes[ti])] = true
+	}
+	for i, nd := range nodes {
+		if nd.Parent == nil || nd.Synth != nil || nd.Msg == nil || len(nd.PathTo()) > 5 {
+			continue
+		}
+		switch cl := elemClass(nd); cl {
+		case "choice", "code", "reference", "bundle-entry", "contained":
+			if !have[cl] {
+				have[cl] = true
+				targets = append([]int{i}, targets...)
+			}
+		}
+	}
 	for _, ti := range targets {
 		nd := nodes[ti]
 		for _, form := range c18Forms {
